@@ -70,6 +70,7 @@ type Contract struct {
 	Loops    map[int]*LoopSpec
 	AtCalls  []*AtCall
 	AtStores []*AtCall // Callee holds the field key "Type.field"
+	AtReturns []*Clause
 	Inline   bool
 	Trusted  bool // body not verified; contract assumed at call sites (reported)
 	Safety   []string // tags for which implicit safety obligations are claimed
@@ -444,6 +445,15 @@ func (p *Program) parseContractFile(fname string, f *ast.File) error {
 			}
 		case "at":
 			// at call <callee> assert#label expr   |   at store <Type.field> assert#label expr
+			if len(fields) >= 3 && fields[1] == "return" {
+				// at return assert#label expr  (locals of the function are visible; result / resultN name the values returned)
+				cl, err := mkClause(strings.TrimSpace(l.text[strings.Index(l.text, "return")+len("return"):]))
+				if err != nil {
+					return err
+				}
+				cur.AtReturns = append(cur.AtReturns, cl)
+				continue
+			}
 			if len(fields) < 5 || (fields[1] != "call" && fields[1] != "store" && fields[1] != "mapupdate") {
 				return bad("at call|store|mapupdate <target> assert#label expr")
 			}
